@@ -33,19 +33,59 @@ func (m *Mutex) Lock()   { m.rw.Lock() }
 func (m *Mutex) Unlock() { m.rw.Unlock() }
 
 // Locker mirrors sync.Locker.
+// Once and Pool are built on the shim's Mutex, so that the ordering they guarantee (the
+// function passed to Do happens before any Do returns; a Put happens before the Get that
+// returns the item) is known to the happens-before monitor. WaitGroup and Map are the real
+// ones (code using them builds, but orderings established only through them are not seen).
+type Once struct {
+	m    Mutex
+	done bool
+}
+
+func (o *Once) Do(f func()) {
+	o.m.Lock()
+	defer o.m.Unlock()
+	if !o.done {
+		f()
+		o.done = true
+	}
+}
+
+type Pool struct {
+	New   func() interface{}
+	mu    Mutex
+	items []interface{}
+}
+
+func (p *Pool) Get() interface{} {
+	p.mu.Lock()
+	defer p.mu.Unlock()
+	if n := len(p.items); n > 0 {
+		x := p.items[n-1]
+		p.items = p.items[:n-1]
+		return x
+	}
+	if p.New != nil {
+		return p.New()
+	}
+	return nil
+}
+
+func (p *Pool) Put(x interface{}) {
+	p.mu.Lock()
+	p.items = append(p.items, x)
+	p.mu.Unlock()
+}
+
+type (
+	WaitGroup = gosync.WaitGroup
+	Map       = gosync.Map
+)
+
 type Locker interface {
 	Lock()
 	Unlock()
 }
-
-// Once, WaitGroup, Map, Pool pass through (not used by the instrumented files today;
-// present so that a changed file that starts using them still builds).
-type (
-	Once      = gosync.Once
-	WaitGroup = gosync.WaitGroup
-	Map       = gosync.Map
-	Pool      = gosync.Pool
-)
 
 // RWMutex is a drop-in for sync.RWMutex (zero value ready).
 type RWMutex struct {
